@@ -379,6 +379,29 @@ func workloads() []workload {
 		o := observe.Run("cmap", strings.NewReader(sb.String())).Obs
 		return fmt.Sprintf("%d bytes, sum %x", len(o), sha1.Sum([]byte(o)))
 	}})
+	// values the writers cannot express, several faults at once: whatever is reported
+	// (an error naming one of them, or bytes) is the same every time
+	ws = append(ws, workload{"Metrics.Write(several names an AFM file cannot hold)", func() string {
+		m := metricsWith(2, 3)
+		for i, nm := range []string{"a b", "c;d", "", "e\tf", "g\nh", "i j k"} {
+			m.Glyphs[nm] = &afm.GlyphInfo{WidthX: float64(100 + i), Ligatures: map[string]string{"x y": "z", "p;q": "r s", "": ""}}
+		}
+		var b bytes.Buffer
+		err := m.Write(&b)
+		return fmt.Sprintf("%q err=%v", b.Bytes(), err)
+	}})
+	for _, format := range corpus.Formats {
+		format := format
+		ws = append(ws, workload{"Font.Write(several glyph names that cannot be written, " + corpus.FormatName(format) + ")", func() string {
+			f := fontWith(2)
+			for i, nm := range []string{"bad name (", "x y", "", "a/b", "c%d", "e\nf", "(g)"} {
+				f.Glyphs[nm] = &type1.Glyph{WidthX: float64(100 + i)}
+			}
+			var b bytes.Buffer
+			err := f.Write(&b, &type1.WriterOptions{Format: format})
+			return fmt.Sprintf("%x err=%v", sha1.Sum(b.Bytes()), err)
+		}})
+	}
 	// several CMaps in one file that build on each other through usecmap (chains and a cycle)
 	for _, chain := range [][][2]string{
 		{{"A", ""}, {"M", "A"}, {"Z", "M"}},
@@ -555,8 +578,27 @@ func tieFont(side float64) *type1.Font {
 	return f
 }
 
+// brokenFonts: charstrings that end the decoding with each of the decoder's errors.
+func brokenFonts() map[string][]byte {
+	mk := func(cs []byte) []byte {
+		return t1raw.Build(t1raw.FontSpec{EncLenIV: 4,
+			Glyphs: map[string][]byte{".notdef": {139, 248, 136, 13, 14}, "B": cs},
+			Order:  []string{".notdef", "B"}})
+	}
+	return map[string][]byte{
+		"an operator that lacks operands":    mk([]byte{139, 248, 136, 13, 144, 5}),
+		"more than 24 numbers":               mk(append(bytes.Repeat([]byte{139}, 30), 14)),
+		"an undefined subroutine":            mk([]byte{139, 248, 136, 13, 239, 10, 14}),
+		"a charstring that ends in a number": mk([]byte{139, 248, 136, 13, 255, 0, 0}),
+	}
+}
+
 func histTargets() []histOp {
 	var ops []histOp
+	for _, nm := range []string{"an operator that lacks operands", "more than 24 numbers", "an undefined subroutine", "a charstring that ends in a number"} {
+		data := brokenFonts()[nm]
+		ops = append(ops, histOp{"type1.Read(font with " + nm + ")", func() string { return observe.Run("font", bytes.NewReader(data)).Obs }})
+	}
 	ops = append(ops, histOp{"Font.Write(coordinates just above the ties of the quotient search)", func() string {
 		var b bytes.Buffer
 		err := tieFont(+1).Write(&b, &type1.WriterOptions{Format: type1.FormatNoEExec})
@@ -633,6 +675,10 @@ func histHistory() []histOp {
 			histOp{fmt.Sprintf("Font.WritePDF failing at write call %d", k+1), func() string { other().WritePDF(&limitWriter{failCall: k}); return "" }},
 			histOp{fmt.Sprintf("Metrics.Write failing at write call %d", k+1), func() string { metricsWith(3, 5).Write(&limitWriter{failCall: k}); return "" }},
 		)
+	}
+	for _, nm := range []string{"an operator that lacks operands", "more than 24 numbers"} {
+		data := brokenFonts()[nm]
+		ops = append(ops, histOp{"type1.Read of a font with " + nm, func() string { type1.Read(bytes.NewReader(data)); return "" }})
 	}
 	ops = append(ops, histOp{"Font.Write of the twin font with coordinates just below the ties", func() string {
 		tieFont(-1).Write(&bytes.Buffer{}, &type1.WriterOptions{Format: type1.FormatNoEExec})
